@@ -159,7 +159,7 @@ PROPS["C17"] = {
 
 PROPS["C17"]["phases"] = {
     "quick": [{"cmd": "stress", "shards": 16, "args": ["--iterations", "150", "--ops", "300"]}],
-    "thorough": [{"cmd": "conc", "shards": 16, "args": ["--shapes", "2+1:1,1+1+1:0", "--budget", "3000", "--stride", "25"]},
+    "thorough": [{"cmd": "conc", "shards": 16, "args": ["--shapes", "2+1:1,1+1+1:0", "--budget", "3000", "--stride", "6"]},
                  {"cmd": "stress", "shards": 16, "args": ["--iterations", "6000", "--ops", "400"]}],
 }
 PROPS["C17"]["miri"] = {
